@@ -294,7 +294,7 @@ func runC01(c *Ctx) {
 					return
 				}
 				ld, ok := pc.Call.Args[1].(*ssa.UnOp)
-				if !ok || ld.Op != token.MUL || ld.X != rv {
+				if !ok || ld.Op != token.MUL || !sameLoadedPlace(ld.X, rv) {
 					return
 				}
 				if !instrDominates(pc, r) {
@@ -302,7 +302,7 @@ func runC01(c *Ctx) {
 					onlyNil := true
 					covers := false
 					for _, g := range guardsOfInstr(pc) {
-						if cm, ok := g.asCmp(); ok && cm.X == rv && isNilConst(cm.Y) && cm.Op == token.NEQ {
+						if cm, ok := g.asCmp(); ok && sameLoadedPlace(cm.X, rv) && isNilConst(cm.Y) && cm.Op == token.NEQ {
 							covers = g.If.Block().Dominates(r.Block())
 							continue
 						}
@@ -329,6 +329,29 @@ func runC01(c *Ctx) {
 					why = "the id written back is " + w + ", not the caller's original id"
 				}
 			})
+			// ... or the same two statements in a helper: a call h(.., rv, .., q, ..) that dominates the return, where h
+			// writes Uint16(<its q parameter>) at offset 0 of <its buffer parameter> on every path
+			if !good {
+				eachInstr(f, func(x ssa.Instruction) {
+					hc, ok := x.(*ssa.Call)
+					if !ok || !instrDominates(hc, r) {
+						return
+					}
+					bi, qi := idRestorerParams(staticCallee(hc))
+					if bi < 0 || bi >= len(hc.Call.Args) || qi >= len(hc.Call.Args) {
+						return
+					}
+					if hc.Call.Args[bi] == rv && hc.Call.Args[qi] == ssa.Value(q) {
+						good = true
+					}
+				})
+			}
+			// ... or the reply comes out of a reply poll helper that restores the id of the query it is handed
+			if !good {
+				if hc, sum := pollHelperCall(rv); hc != nil && sum.restores && sum.qIdx >= 0 && len(hc.Call.Args) > sum.qIdx && hc.Call.Args[sum.qIdx] == ssa.Value(q) {
+					good = true
+				}
+			}
 			c.check(good, key, instrPos(r), "returned reply gets the caller's original id", why+": the caller receives a reply with the wire id (0 for DoH/DoQ) instead of its own")
 		}
 		if n == 0 {
@@ -368,11 +391,75 @@ func runC01(c *Ctx) {
 				src = fl.X
 			}
 			if _, ok := chanOfRecv(src); !ok {
-				good, why = false, exprStr(rv)
+				if hc, _ := pollHelperCall(src); hc == nil {
+					good, why = false, exprStr(rv)
+				}
 			}
 		}
 		c.check(good && n > 0, "returns-received-reply@"+funcName(f), f.Pos(), "every non-nil result was received from the call's reply channel",
 			"the exchange can return "+why+", which was not received on its own reply channel")
+	}
+
+	// a reply buffer belongs to exactly one caller (each caller stamps its own id into it and releases it): the
+	// exchangers never pass replies through a result-sharing or untyped container (singleflight, sync.Map, atomic.Value)
+	{
+		carriesBuf := func(t types.Type) bool {
+			isBufPtr := func(t types.Type) bool {
+				pt, ok := t.Underlying().(*types.Pointer)
+				if !ok {
+					return false
+				}
+				sl, ok := pt.Elem().Underlying().(*types.Slice)
+				if !ok {
+					return false
+				}
+				b, ok := sl.Elem().Underlying().(*types.Basic)
+				return ok && b.Kind() == types.Uint8
+			}
+			if isBufPtr(t) {
+				return true
+			}
+			if pt, ok := t.Underlying().(*types.Pointer); ok {
+				t = pt.Elem()
+			}
+			if st, ok := t.Underlying().(*types.Struct); ok {
+				for i := 0; i < st.NumFields(); i++ {
+					if isBufPtr(st.Field(i).Type()) {
+						return true
+					}
+				}
+			}
+			return false
+		}
+		isSF := func(in ssa.Instruction) bool {
+			ci, ok := in.(ssa.CallInstruction)
+			return ok && strings.HasPrefix(callName(ci), "(*golang.org/x/sync/singleflight.Group).Do")
+		}
+		bad := ""
+		for _, f := range p.funcsIn(relTransport, relDoh, relUpstream) {
+			eachInstr(f, func(in ssa.Instruction) {
+				if isSF(in) {
+					bad = p.pos(instrPos(in)) + ": exchanges are coalesced with singleflight"
+				}
+				if ta, ok := in.(*ssa.TypeAssert); ok && carriesBuf(ta.AssertedType) {
+					bad = p.pos(instrPos(in)) + ": a reply buffer is taken out of an untyped container (" + ta.AssertedType.String() + ")"
+				}
+			})
+		}
+		// the matcher is alive: the cache plugin's refresh is the one user of singleflight in the tree
+		seenSF := false
+		for _, f := range p.funcsIn(relCachePlugin) {
+			eachInstr(f, func(in ssa.Instruction) {
+				if isSF(in) {
+					seenSF = true
+				}
+			})
+		}
+		if !seenSF {
+			c.anchorMissing("singleflight call in the cache plugin (positive example of the shared-result matcher)")
+		}
+		c.check(bad == "", "reply-buffer-not-shared", token.NoPos, "no exchanger hands one reply buffer to several callers (no singleflight, no untyped container of buffers in the upstream packages)",
+			bad+": concurrent callers receive the same buffer, each stamps its own id into it — a caller ends up holding another caller's id — and the buffer is released several times")
 	}
 
 	// ---------------------------------------------------------------- R4
@@ -382,7 +469,7 @@ func runC01(c *Ctx) {
 		okRet := false
 		for _, r := range returnsOf(inserter) {
 			rv := returnedValues(r)
-			if len(rv) > 0 && insertKeyBase != nil && rv[0] == insertKeyBase {
+			if len(rv) > 0 && insertKeyBase != nil && (rv[0] == insertKeyBase || sameCellValue(insertKeyBase, rv[0])) {
 				okRet = true
 			}
 		}
@@ -872,6 +959,42 @@ func checkSurplusReplyCloses(c *Ctx) {
 				ci, ok := x.(*ssa.Call)
 				return ok && callName(ci) == "pkg/dnsutils.ReadRawMsgFromTCP"
 			}, isClose)
+			if leak {
+				// the nil test may be one conjunct of a named boolean (`expected := waiter != nil && id == registered`): the
+				// CFG joins both outcomes before the decision. Then it is enough that everything that keeps the
+				// connection in service — marking it idle, handing the reply over — runs only under "waiter != nil"
+				// (guards derived through the boolean count).
+				keep, guarded := 0, true
+				eachInstr(rl, func(x ssa.Instruction) {
+					uses := false
+					if cl, ok := x.(*ssa.Call); ok && strings.HasSuffix(callName(cl), ".setIdle") {
+						uses = true
+					}
+					if sel, ok := x.(*ssa.Select); ok {
+						for _, st := range sel.States {
+							if st.Dir == types.SendOnly {
+								uses = true
+							}
+						}
+					}
+					if !uses {
+						return
+					}
+					keep++
+					okG := false
+					for _, g2 := range guardsOfInstr(x) {
+						if c2, ok := g2.asCmp(); ok && c2.Op == token.NEQ && isNilConst(c2.Y) && c2.X == cm.X {
+							okG = true
+						}
+					}
+					if !okG {
+						guarded = false
+					}
+				})
+				if keep > 0 && guarded {
+					leak = false
+				}
+			}
 			c.check(!leak, "surplus-reply-closes@readLoop", instrPos(iff), "a reply nobody waits for closes the connection", "a reply that no caller waits for is dropped and the connection stays in service: the reader may have taken the reply away from a caller that is just about to register, or the stream is out of step — the next caller on this connection gets another query's reply")
 		}
 	})
@@ -1114,7 +1237,7 @@ func checkWaiterInsertAbsent(c *Ctx, lf *lockFacts) (*ssa.Function, ssa.Value) {
 			// the same key VALUE (structural equality is not enough: a field re-read after an update differs)
 			sameKey := lk.Index == mu.Key
 			if c1, ok := lk.Index.(*ssa.Convert); ok {
-				if c2, ok := mu.Key.(*ssa.Convert); ok && c1.X == c2.X {
+				if c2, ok := mu.Key.(*ssa.Convert); ok && (c1.X == c2.X || sameCellValue(c1.X, c2.X)) {
 					sameKey = true
 				}
 			}
@@ -1149,7 +1272,6 @@ func checkWaiterInsertAbsent(c *Ctx, lf *lockFacts) (*ssa.Function, ssa.Value) {
 
 }
 
-
 // waiterOrNil: v is the value loaded from the single waiter slot (field key k), or a phi all of whose edges are that
 // or nil (the reader drops the waiter when the reply is not the one it waits for).
 func waiterOrNil(v ssa.Value, k string, depth int) bool {
@@ -1173,4 +1295,57 @@ func waiterOrNil(v ssa.Value, k string, depth int) bool {
 		return some
 	}
 	return false
+}
+
+// idRestorerParams: h is a helper that writes binary.BigEndian.Uint16(<[]byte parameter qi>) with PutUint16 at offset 0
+// of the buffer its *[]byte parameter bi points to, in its entry block (on every path).  (-1, -1) otherwise.
+func idRestorerParams(h *ssa.Function) (int, int) {
+	if h == nil || len(h.Blocks) == 0 || !inMosdns(h) {
+		return -1, -1
+	}
+	bi, qi := -1, -1
+	for _, in := range h.Blocks[0].Instrs {
+		pc, ok := in.(*ssa.Call)
+		if !ok || callName(pc) != binPut16 || len(pc.Call.Args) != 3 {
+			continue
+		}
+		ld, ok := pc.Call.Args[1].(*ssa.UnOp)
+		if !ok || ld.Op != token.MUL {
+			continue
+		}
+		src, ok := pc.Call.Args[2].(*ssa.Call)
+		if !ok || callName(src) != binU16 || len(src.Call.Args) != 2 {
+			continue
+		}
+		for i, prm := range h.Params {
+			if ld.X == ssa.Value(prm) {
+				bi = i
+			}
+			if src.Call.Args[1] == ssa.Value(prm) {
+				qi = i
+			}
+		}
+	}
+	if bi < 0 || qi < 0 {
+		return -1, -1
+	}
+	return bi, qi
+}
+
+// sameCellValue: a and b are two loads of one purely local cell that observe the same store: the store that reaches a
+// is the only one that reaches b, and no store to the cell can execute between the last evaluation of a and b.
+func sameCellValue(a, b ssa.Value) bool {
+	la, ok1 := a.(*ssa.UnOp)
+	lb, ok2 := b.(*ssa.UnOp)
+	if !ok1 || !ok2 || la.X != lb.X {
+		return false
+	}
+	ra, ok1 := reachingStores(la)
+	rb, ok2 := reachingStores(lb)
+	if !ok1 || !ok2 || len(ra) != 1 || len(rb) != 1 || ra[0] != rb[0] {
+		return false
+	}
+	// b is only evaluated after a saw that very store: a lies on every path from the store to b
+	_, bypass := reachAvoiding(ra[0], func(x ssa.Instruction) bool { return x == ssa.Instruction(lb) }, func(x ssa.Instruction) bool { return x == ssa.Instruction(la) })
+	return !bypass
 }
